@@ -86,6 +86,10 @@ func pinOracle(cs caseSpec, res caseResult, nPrefix int) []failure {
 // was answered 200), a request that reaches the session over ANY other connection -- a fresh one or one
 // that attached to the session before it started streaming -- must get an error status and leave the
 // session (state, liveness, owning connection) untouched.
+// The pin lasts only as long as the owning connection is open: once that connection has been closed (for
+// instance by its own illegal request) the session no longer "streams over an interleaved connection", and
+// C02 demands that it ends when its last remaining connection goes away -- also when that connection goes
+// away because its request was refused (thorough-tier false alarm of 2026-09-23, see DESIGN.md section 11).
 func attachedPinOracle(cs caseSpec, res caseResult) []failure {
 	var fails []failure
 	pin := map[int]int{} // session -> connection it streams on (interleaved)
@@ -97,7 +101,7 @@ func attachedPinOracle(cs caseSpec, res caseResult) []failure {
 		if prev != nil && o.status != 0 && r.meth != mDescribe && k >= 0 && k < len(prev.states) {
 			owner, pinned := pin[k]
 			ps := prev.states[k]
-			if pinned && (ps == 2 || ps == 4) && owner != r.conn && cs.ips[r.conn] == cs.ips[owner] {
+			if pinned && (ps == 2 || ps == 4) && owner != r.conn && cs.ips[r.conn] == cs.ips[owner] && prev.open[owner] {
 				fresh := true
 				for j := 0; j < i; j++ {
 					if res.obs[j].req.conn == r.conn && res.obs[j].target == k && res.obs[j].status != 0 && res.obs[j].status < 400 {
